@@ -1,4 +1,5 @@
 import ShootVerif.Proofs.MapperCtor
+import ShootVerif.Proofs.MapperPairs
 /-!
 C15 — mapping through accessors/constructors equals plain field mapping.
 
@@ -27,8 +28,8 @@ theorem C15_ctor_args (inp : Input) :
         canNameMatch [] inp.ic f a.p = true ∧ justifiedArg inp.conv (indexed inp.fns) f a) := by
   constructor
   · intro args h
-    have := ctorMatch_args inp.conv inp.fns inp.nm (sideFields inp.src inp.srcNew) (sideParams inp.dest inp.destNew) []
-      (ctorMatch inp.conv inp.fns inp.nm (sideFields inp.src inp.srcNew) (sideParams inp.dest inp.destNew) []).1 args
+    have := ctorMatch_args inp.conv inp.fns inp.nm (sideFields inp.src inp.srcNew) (sideParams inp.dest inp.destNew) inp.manualW
+      (ctorMatch inp.conv inp.fns inp.nm (sideFields inp.src inp.srcNew) (sideParams inp.dest inp.destNew) inp.manualW).1 args
       (by rw [← h]; rfl)
     refine ⟨this.1, fun a ha => ?_⟩
     rcases this.2 a ha with h0 | ⟨f, h1, h2, _, h4, h5, h6, _⟩
@@ -36,8 +37,8 @@ theorem C15_ctor_args (inp : Input) :
     · exact Or.inr ⟨f, h1, h2, h4, h5, h6⟩
   · intro args h
     have := ctorMatch_args inp.conv inp.fns (canNameMatch [] inp.ic) (sideFields inp.dest inp.destNew)
-      (sideParams inp.src inp.srcNew) []
-      (ctorMatch inp.conv inp.fns (canNameMatch [] inp.ic) (sideFields inp.dest inp.destNew) (sideParams inp.src inp.srcNew) []).1 args
+      (sideParams inp.src inp.srcNew) inp.manualR
+      (ctorMatch inp.conv inp.fns (canNameMatch [] inp.ic) (sideFields inp.dest inp.destNew) (sideParams inp.src inp.srcNew) inp.manualR).1 args
       (by rw [← h]; rfl)
     refine ⟨this.1, fun a ha => ?_⟩
     rcases this.2 a ha with h0 | ⟨f, h1, h2, _, h4, h5, h6, _⟩
@@ -47,10 +48,7 @@ theorem C15_ctor_args (inp : Input) :
 /-- headline: no field is written twice — a setter (or exported field) is the target of at most one
     statement, and of none when the constructor call already carries its value. Hypotheses: the two
     field lists have no duplicates (`wfNewSide`: distinct accessor names).
-    NOT proved here: "at least once" (every name-matched compatible settable field is indeed set);
-    `C05_pairs` gives it under unique name matching, which accessor mode does not have (the getter and
-    the setter pseudo-field of one field both match the partner). It is asserted on the implementation
-    by the `writes:` observables of the correspondence run. -/
+    "At least once" is `C15_set_exactly_once` below. -/
 theorem C15_set_once (inp : Input) (h1 : (plan inp).srcFields.Nodup) (h2 : (plan inp).destFields.Nodup) :
     ((plan inp).toStmts.map (·.wr.name)).Nodup ∧ ((plan inp).fromStmts.map (·.wr.name)).Nodup ∧
     (∀ args, (plan inp).destCtor = some args → ∀ a ∈ args, a.rd ≠ none →
@@ -58,25 +56,114 @@ theorem C15_set_once (inp : Input) (h1 : (plan inp).srcFields.Nodup) (h2 : (plan
     (∀ args, (plan inp).srcCtor = some args → ∀ a ∈ args, a.rd ≠ none →
       ∀ c ∈ (plan inp).fromStmts, c.wr.name ≠ a.p.name) := by
   have hinv := planFields_inv (conv := inp.conv) (ps := pairs inp.nm (plan inp).srcFields (plan inp).destFields) inp.fns
-    (ctorMatch inp.conv inp.fns inp.nm (sideFields inp.src inp.srcNew) (sideParams inp.dest inp.destNew) []).1
-    (ctorMatch inp.conv inp.fns (canNameMatch [] inp.ic) (sideFields inp.dest inp.destNew) (sideParams inp.src inp.srcNew) []).1
+    (ctorMatch inp.conv inp.fns inp.nm (sideFields inp.src inp.srcNew) (sideParams inp.dest inp.destNew) inp.manualW).1
+    (ctorMatch inp.conv inp.fns (canNameMatch [] inp.ic) (sideFields inp.dest inp.destNew) (sideParams inp.src inp.srcNew) inp.manualR).1
   have hst : (plan inp).st = planFields inp.conv inp.fns (pairs inp.nm (plan inp).srcFields (plan inp).destFields)
-      { wD := (ctorMatch inp.conv inp.fns inp.nm (sideFields inp.src inp.srcNew) (sideParams inp.dest inp.destNew) []).1,
-        wS := (ctorMatch inp.conv inp.fns (canNameMatch [] inp.ic) (sideFields inp.dest inp.destNew) (sideParams inp.src inp.srcNew) []).1 } := rfl
+      { wD := (ctorMatch inp.conv inp.fns inp.nm (sideFields inp.src inp.srcNew) (sideParams inp.dest inp.destNew) inp.manualW).1,
+        wS := (ctorMatch inp.conv inp.fns (canNameMatch [] inp.ic) (sideFields inp.dest inp.destNew) (sideParams inp.src inp.srcNew) inp.manualR).1 } := rfl
   rw [← hst] at hinv
   refine ⟨stmts_nodup _ _ h1 hinv.toNodup, stmts_nodup _ _ h2 hinv.fromNodup, ?_, ?_⟩
   · intro args h a ha hrd c hc e
-    have := ctorMatch_args inp.conv inp.fns inp.nm (sideFields inp.src inp.srcNew) (sideParams inp.dest inp.destNew) []
+    have := ctorMatch_args inp.conv inp.fns inp.nm (sideFields inp.src inp.srcNew) (sideParams inp.dest inp.destNew) inp.manualW
       _ args (by rw [← h]; rfl)
     rcases this.2 a ha with h0 | ⟨f, _, _, _, _, _, _, h7⟩
     · exact hrd h0
     · exact (hinv.toIn c (stmts_sub hc).1).2.1 (e ▸ h7)
   · intro args h a ha hrd c hc e
     have := ctorMatch_args inp.conv inp.fns (canNameMatch [] inp.ic) (sideFields inp.dest inp.destNew)
-      (sideParams inp.src inp.srcNew) [] _ args (by rw [← h]; rfl)
+      (sideParams inp.src inp.srcNew) inp.manualR _ args (by rw [← h]; rfl)
     rcases this.2 a ha with h0 | ⟨f, _, _, _, _, _, _, h7⟩
     · exact hrd h0
     · exact (hinv.fromIn c (stmts_sub hc).1).2.1 (e ▸ h7)
+
+theorem uniqueClaimable_prop (inp : Input) (h : uniqueClaimable inp = true) :
+    UniqueClaimable (pairs inp.nm (plan inp).srcFields (plan inp).destFields) := by
+  simp only [uniqueClaimable, Bool.and_eq_true, List.all_eq_true, Bool.or_eq_true, Bool.not_eq_true', beq_eq_false_iff_ne,
+    beq_iff_eq] at h
+  constructor
+  · intro p hp q hq e hg1 hg2
+    rcases h.1 p hp q hq with ((h1 | h1) | h1) | h1
+    · exact absurd e h1
+    · rw [hg1] at h1; cases h1
+    · rw [hg2] at h1; cases h1
+    · exact h1
+  · intro p hp q hq e hg1 hg2
+    rcases h.2 p hp q hq with ((h1 | h1) | h1) | h1
+    · exact absurd e h1
+    · rw [hg1] at h1; cases h1
+    · rw [hg2] at h1; cases h1
+    · exact h1
+
+theorem plan_st_eq (inp : Input) :
+    (plan inp).st = planFields inp.conv inp.fns (pairs inp.nm (plan inp).srcFields (plan inp).destFields)
+      { wD := (ctorMatch inp.conv inp.fns inp.nm (sideFields inp.src inp.srcNew) (sideParams inp.dest inp.destNew) inp.manualW).1,
+        wS := (ctorMatch inp.conv inp.fns (canNameMatch [] inp.ic) (sideFields inp.dest inp.destNew) (sideParams inp.src inp.srcNew) inp.manualR).1 } := rfl
+
+/-- refinement to C05, decision part: in accessor mode (constructor parameters taken first, getters and
+    setters as pseudo-fields) every emitted field statement is made for a name-matched pair and applies
+    exactly C05's decision function `pairStrat` to the types of the field it reads and the field it
+    writes — the function `C05_strategy` identifies with the property's priority list. Holds for every
+    input in which each field has at most one claimable partner (`uniqueClaimable`; plain C05 pairs with
+    unique matching are a special case). Together with `C15_refines_partial` (accessor names match like
+    the exported twin), `C15_set_exactly_once` (the statement exists) and `C15_ctor_args` (what the
+    constructor carries) this is the refinement; where the constructor deviates from C05 is exactly
+    F_ctorPriority / F_ctorNoSub / F_ctorTag. -/
+theorem C15_refines (inp : Input) (hu : uniqueClaimable inp = true) :
+    (∀ c ∈ (plan inp).toStmts, c.rd ∈ (plan inp).srcFields ∧ c.wr ∈ (plan inp).destFields ∧ inp.nm c.rd c.wr = true ∧
+      pairStrat inp.conv (indexed inp.fns) .src .dest c.rd.ty c.wr.ty = some c.strat) ∧
+    (∀ c ∈ (plan inp).fromStmts, c.wr ∈ (plan inp).srcFields ∧ c.rd ∈ (plan inp).destFields ∧ inp.nm c.wr c.rd = true ∧
+      pairStrat inp.conv (indexed inp.fns) .dest .src c.rd.ty c.wr.ty = some c.strat) := by
+  have hU := uniqueClaimable_prop inp hu
+  have hs := claim_strat inp.conv inp.fns _ hU
+    (ctorMatch inp.conv inp.fns inp.nm (sideFields inp.src inp.srcNew) (sideParams inp.dest inp.destNew) inp.manualW).1
+    (ctorMatch inp.conv inp.fns (canNameMatch [] inp.ic) (sideFields inp.dest inp.destNew) (sideParams inp.src inp.srcNew) inp.manualR).1
+  rw [← plan_st_eq inp] at hs
+  constructor
+  · intro c hc
+    have := hs.1 c (stmts_sub hc).1
+    have hm := (mem_pairs _ _ _ _ _).mp this.1
+    exact ⟨hm.1, hm.2.1, hm.2.2, this.2⟩
+  · intro c hc
+    have := hs.2 c (stmts_sub hc).1
+    have hm := (mem_pairs _ _ _ _ _).mp this.1
+    exact ⟨hm.1, hm.2.1, hm.2.2, this.2⟩
+
+/-- headline, "exactly once": a settable (non-getter) field that the constructor did not take and that
+    has a name-matched readable-or-not partner with an applicable strategy is the target of exactly one
+    statement of ToX; the mirror image for FromX. (`C15_set_once` is the "at most once" half for all inputs.) -/
+theorem C15_set_exactly_once (inp : Input) (hu : uniqueClaimable inp = true)
+    (h1 : (plan inp).srcFields.Nodup) (h2 : (plan inp).destFields.Nodup) :
+    (∀ f1 f2, f1 ∈ (plan inp).srcFields → f2 ∈ (plan inp).destFields → inp.nm f1 f2 = true → f2.isGet = false →
+      f2.name ∉ (ctorMatch inp.conv inp.fns inp.nm (sideFields inp.src inp.srcNew) (sideParams inp.dest inp.destNew) inp.manualW).1 →
+      (pairStrat inp.conv (indexed inp.fns) .src .dest f1.ty f2.ty).isSome = true →
+      ∃ c ∈ (plan inp).toStmts, c.wr.name = f2.name ∧ ∀ c' ∈ (plan inp).toStmts, c'.wr.name = f2.name → c' = c) ∧
+    (∀ f1 f2, f1 ∈ (plan inp).srcFields → f2 ∈ (plan inp).destFields → inp.nm f1 f2 = true → f1.isGet = false →
+      f1.name ∉ (ctorMatch inp.conv inp.fns (canNameMatch [] inp.ic) (sideFields inp.dest inp.destNew) (sideParams inp.src inp.srcNew) inp.manualR).1 →
+      (pairStrat inp.conv (indexed inp.fns) .dest .src f2.ty f1.ty).isSome = true →
+      ∃ c ∈ (plan inp).fromStmts, c.wr.name = f1.name ∧ ∀ c' ∈ (plan inp).fromStmts, c'.wr.name = f1.name → c' = c) := by
+  have hU := uniqueClaimable_prop inp hu
+  have hinv := planFields_inv (conv := inp.conv) (ps := pairs inp.nm (plan inp).srcFields (plan inp).destFields) inp.fns
+    (ctorMatch inp.conv inp.fns inp.nm (sideFields inp.src inp.srcNew) (sideParams inp.dest inp.destNew) inp.manualW).1
+    (ctorMatch inp.conv inp.fns (canNameMatch [] inp.ic) (sideFields inp.dest inp.destNew) (sideParams inp.src inp.srcNew) inp.manualR).1
+  rw [← plan_st_eq inp] at hinv
+  have once := C15_set_once inp h1 h2
+  constructor
+  · intro f1 f2 hf1 hf2 hnm hg hw hs
+    obtain ⟨c, hc, hn⟩ := claim_exists_to inp.conv inp.fns _ hU _ _ (f1, f2) ((mem_pairs _ _ _ _ _).mpr ⟨hf1, hf2, hnm⟩) hg hw hs
+    rw [← plan_st_eq inp] at hc
+    have hstmt : c ∈ (plan inp).toStmts :=
+      (claims_are_stmts_to hinv hU _ (fun p hp => ((mem_pairs _ _ _ _ _).mp hp).1) c).mpr hc
+    refine ⟨c, hstmt, hn, ?_⟩
+    intro c' hc' hn'
+    exact inj_of_map_nodup (fun x : Claim => x.wr.name) _ once.1 hc' hstmt (by simp [hn, hn'])
+  · intro f1 f2 hf1 hf2 hnm hg hw hs
+    obtain ⟨c, hc, hn⟩ := claim_exists_from inp.conv inp.fns _ hU _ _ (f1, f2) ((mem_pairs _ _ _ _ _).mpr ⟨hf1, hf2, hnm⟩) hg hw hs
+    rw [← plan_st_eq inp] at hc
+    have hstmt : c ∈ (plan inp).fromStmts :=
+      (claims_are_stmts_from hinv hU _ (fun p hp => ((mem_pairs _ _ _ _ _).mp hp).2.1) c).mpr hc
+    refine ⟨c, hstmt, hn, ?_⟩
+    intro c' hc' hn'
+    exact inj_of_map_nodup (fun x : Claim => x.wr.name) _ once.2.1 hc' hstmt (by simp [hn, hn'])
 
 /-- the constructor is used only when at least one argument carries a value -/
 theorem C15_ctor_used (conv : List (Ty × Ty)) (fl : List Fn) (nm : Field → Field → Bool) (fields params : List Field)
@@ -118,6 +205,7 @@ example : region15 exWF15 = "WF" ∧ obs15 exWF15 = spec15 exWF15 := by decide
 example : ((plan exWF15).destCtor.getD []).map (fun a => (a.p.name, a.rd.map (·.name), a.strat)) =
     [("SetId", some "ID", .assign), ("SetName", some "Name", .assign), ("SetWide", some "Wide", .conv)] := by decide
 example : (plan exWF15).srcFields.Nodup ∧ (plan exWF15).destFields.Nodup := by decide
+example : uniqueClaimable exWF15 = true ∧ uniquePairs exWF15 = false := by decide
 
 /-! ### finding regions -/
 
@@ -153,6 +241,23 @@ def wCtorTag : Input :=
   { src := .field { name := "caption", ty := .basic "string", tag := .name "Title", get := true } .nil,
     dest := .field { name := "Title", ty := .basic "string" } .nil, srcNew := true, way := .fromOnly }
 theorem C15_F_ctorTag_witness : region15 wCtorTag = "F_ctorTag" ∧ obs15 wCtorTag ≠ spec15 wCtorTag := by decide
+
+/-- `*Core` embedded by pointer, its field settable, the constructor unused: `d_.SetName(..)` through a nil pointer -/
+def wPtrEmbedSetter : Input :=
+  { src := .field { name := "Name", ty := .basic "string" } .nil,
+    dest := .embed "Core" true (.field { name := "name", ty := .basic "string" } .nil) .nil,
+    destNew := true, way := .toOnly }
+theorem C15_F_ptrEmbedSetter_witness :
+    region15 wPtrEmbedSetter = "F_ptrEmbedSetter" ∧ obs15 wPtrEmbedSetter ≠ spec15 wPtrEmbedSetter := by decide
+
+/-- `*Core` embedded by pointer with a get-only field: its constructor parameter is not recovered -/
+def wCtorPtrEmbed : Input :=
+  { src := .field { name := "Name", ty := .basic "string" } (.field { name := "ID", ty := .basic "int" } .nil),
+    dest := .embed "Core" true (.field { name := "name", ty := .basic "string", get := true } .nil)
+              (.field { name := "id", ty := .basic "int" } .nil),
+    destNew := true, way := .toOnly }
+theorem C15_F_ctorPtrEmbed_witness :
+    region15 wCtorPtrEmbed = "F_ctorPtrEmbed" ∧ obs15 wCtorPtrEmbed ≠ spec15 wCtorPtrEmbed := by decide
 
 /-- a constructor parameter of type `any` without a partner: `zeroValue` knows no alias types, the run aborts -/
 def wCtorZeroAny : Input :=
